@@ -30,9 +30,9 @@ LenOf(nl, t, ix) == nl[CHOOSE k \in GroupAt(nl, t) : nl[k].i = ix].l
 WellFormedTrack(nl) ==
   /\ \A k \in 1..(Len(nl) - 1) : nl[k].t <= nl[k+1].t                       \* tick order
   /\ \A j, k \in DOMAIN nl : (j # k /\ nl[j].t = nl[k].t) => nl[j].i # nl[k].i   \* one line per index
-  /\ \A t \in TicksOf(nl) :
-        /\ (LanesAt(nl, t) # {} \/ IsOpenAt(nl, t))                          \* a tick of flags only is degenerate
-        /\ ~(LanesAt(nl, t) # {} /\ IsOpenAt(nl, t))                         \* open is not a lane of a chord
+  \* (a tick that carries flag lines only is the EMPTY lane subset: a note with no active lane, whose flags count and whose
+  \*  flag lines contribute no length - "forall lane subsets", C03)
+  /\ \A t \in TicksOf(nl) : ~(LanesAt(nl, t) # {} /\ IsOpenAt(nl, t))       \* open is not a lane of a chord
 
 \* C03 additionally reads an open note's own line first in its tick group (flags follow it),
 \* the order Moonscraper writes; the library documents other orders as undefined.
@@ -52,6 +52,7 @@ SortedTicks(nl) == LET T == TicksOf(nl)
 \* A sustain value is <<"u", n>> (one number) or <<"t", <<v0..v4>>>> with -1 for an inactive lane.
 SustainAt(nl, t) ==
   IF IsOpenAt(nl, t) THEN <<"u", LenOf(nl, t, IdxOpen)>>
+  ELSE IF LanesAt(nl, t) = {} THEN <<"u", 0>>                                 \* flag lines only: nothing contributes a length
   ELSE LET L  == LanesAt(nl, t)
            vs == { LenOf(nl, t, ln) : ln \in L }
        IN IF Cardinality(vs) = 1 THEN <<"u", CHOOSE v \in vs : TRUE>>
@@ -59,6 +60,7 @@ SustainAt(nl, t) ==
 
 LongestAt(nl, t) ==
   IF IsOpenAt(nl, t) THEN LenOf(nl, t, IdxOpen)
+  ELSE IF LanesAt(nl, t) = {} THEN 0
   ELSE LET vs == { LenOf(nl, t, ln) : ln \in LanesAt(nl, t) }
        IN CHOOSE m \in vs : \A v \in vs : v <= m
 
